@@ -111,6 +111,7 @@ def cb_ok(st, obj='manager', mod='base_manager'):
     return {
         'callbacks.counter-slot-unreachable': FA([s, k], z3.Implies(z3.And(pres, cb.c['..'][s][k] == COUNTER), smt.kind(k) == smt.K_OTHER)),
         'callbacks.counter-positive': FA([s], z3.Implies(cb.c['dom'][s], nxt.c['.'][s] >= 1)),
+        'callbacks.none-is-no-key': z3.Not(cb.c['dom'][NONE]),
         'callbacks.counter-slot-present': FA([s], z3.Implies(cb.c['dom'][s], z3.And(cb.c['.dom'][s][slot_key(mod)],
                                                                                      cb.c['..'][s][slot_key(mod)] == COUNTER))),
         'callbacks.are-callables': FA([s, k], z3.Implies(z3.And(pres, cb.c['..'][s][k] != COUNTER),
